@@ -22,14 +22,14 @@ def run(ctx):
     ws = gen.Workspace(ctx)
     ngr = 8 if not thorough else 40
     kept = []
-    cands = [cfggen.family(i) for i in (0, 1, 7, 8)] + [cfggen.gen_cfg(rng, with_error=(rng.random() < 0.3)) for _ in range(80)]
+    cands = [cfggen.family(i) for i in (0, 1, 7, 8, 11)] + [cfggen.gen_cfg(rng, with_error=(rng.random() < 0.3)) for _ in range(80)]
     for gi, g in enumerate(cands):
         if len(kept) >= ngr:
             break
         ok = True
         for zi, fl in enumerate(([], ["-zip"])):
             name = "g%d_%d" % (gi, zi)
-            rc, out, d = ws.gocc(name, cfggen.full_text(g, "x/%s/h" % name, pure=True), flags=["-a"] + fl)
+            rc, out, d = ws.gocc(name, cfggen.full_text(g, "x/%s/h" % name, pure=True), flags=fl)
             if rc != 0:
                 ok = False
                 break
@@ -70,7 +70,7 @@ def run(ctx):
             if (race or p.returncode != 0 or done != ["DONE 0"]) and reported < 3:
                 diffs = [l for l in p.stdout.split("\n") if l.startswith("DIFF")][:3]
                 ctx.violation({"kind": "property-oracle-on-implementation", "grammar": cfggen.full_text(g, "x/o/h", pure=True),
-                               "flags": ["-a"] + (["-zip"] if zi else []), "goroutines": 16, "sources": [repr(s) for s in srcs[:10]],
+                               "flags": (["-zip"] if zi else []), "goroutines": 16, "sources": [repr(s) for s in srcs[:10]],
                                "exit": p.returncode, "race_report": p.stderr[:1500] if race else "", "differences": diffs})
                 reported += 1
             if len(samples) < 2:
